@@ -127,13 +127,13 @@ def D(*a, **k):
 PROPS['C01'] = dict(layers=[D(P.p_c01, profile=dict(faults=0.4))], planned=['C01_validated (alias expansion)', 'C01_history_free at daemon level'])
 PROPS['C02'] = dict(layers=[D(P.p_c02_c03, P.p_c02_wire, profile=dict(faults=0.5))], planned=['C02_sound end-to-end (102 ⇒ every target commanded and answered ok)', 'C02_cli'])
 PROPS['C03'] = dict(layers=[D(P.p_c02_c03, P.p_c03_justified, profile=dict(faults=0.5))], planned=['C03_justified over whole runs', 'C03_no_memory'])
-PROPS['C04'] = dict(layers=[D(P.p_c04, P.p_c04_quit, P.p_c15)], planned=['C04_one_reply', 'C04_no_wedge', 'C04_tenure', 'C04_bound_partial'])
+PROPS['C04'] = dict(layers=[D(P.p_c04, P.p_c04_quit, P.p_c04_deadline, P.p_c15)], planned=['C04_one_reply', 'C04_no_wedge', 'C04_tenure', 'C04_bound_partial'])
 PROPS['C06'] = dict(layers=[D(P.p_c04, P.p_c15, P.p_f23, profile=dict(fatal=0.03, faults=1.5, maxclients=6), deaths=client_deaths), D(P.p_c04, P.p_c15, profile=dict(fatal=0.02, faults=0.1, quit=0.003, maxclients=3, calm=0.05), deaths=client_deaths, quick=(8, 2500), thorough=(32, 6000))], planned=['C06_total over lines >= CP_LINEMAX (203)', 'C06_reap'])
 PROPS['C07'] = dict(layers=[D(P.p_c20, profile=dict(garbage=0.08, pF6=0.03, calm=0.25), deaths=device_deaths)], planned=['C07_no_abort assembled over whole runs', 'xmatch_used under ExpectBeforeSet'])
 PROPS['C08'] = dict(layers=[D(P.p_c08, P.p_c01, profile=dict(faults=0.5))], planned=['composition of the refinement over postPoll sequences with reconnects'])
 PROPS['C09'] = dict(layers=[D(P.p_c09_write, P.p_c09_read, profile=dict(garbage=0.05))], planned=['cbuf_refines (index-level model of cbuf.c)', 'buffer capacity / overflow_drop'])
 PROPS['C10'] = dict(layers=[D(P.p_c10)], planned=['C10_head_only', 'C10_transcript', 'C10_fifo'])
-PROPS['C12'] = dict(layers=[D(P.p_c12, P.p_c12_disconnect, P.p_c04, profile=dict(pF6=0.02, calm=0.3))], planned=['C12_ioerr', 'C12_recover_partial'])
+PROPS['C12'] = dict(layers=[D(P.p_c12, P.p_c12_disconnect, P.p_c04, P.p_c02_c03, profile=dict(pF6=0.02, calm=0.3))], planned=['C12_ioerr', 'C12_recover_partial'])
 PROPS['C13'] = dict(layers=[config.ConfigLayer()], planned=['C13_listings at daemon level (nodes / device replies) — the replies themselves are mirrored in Pm.Daemon and compared on every run'])
 PROPS['C14'] = dict(layers=[hostlist.HostlistLayer()], planned=['C14_roundtrip', 'C14_sort_perm', 'C14_three_hops'])
 PROPS['C18'] = dict(layers=[lexlayer.LexLayer()], planned=['the flex/bison automata, malloc and regcomp are not modelled: their memory safety on arbitrary input is observed under ASan/UBSan by the whole-file fuzz of this layer, not proved'])
@@ -142,7 +142,7 @@ PROPS['C20'] = dict(layers=[D(P.p_c20, profile=dict(pF6=0.02, maxclients=6), lea
 PROPS['C15'] = dict(layers=[D(P.p_c15, P.p_c04, P.p_c04_quit, profile=dict(garbage=0.06, maxclients=6))], planned=['C15_stream over whole runs (needs a ghost record of bytes written in earlier passes)', 'cleanliness of the data-carrying lines through the hostlist mirror'])
 PROPS['C16'] = dict(layers=[libpm.LibPmLayer()], planned=['memory safety of the remaining C is observed under ASan, not proved'])
 PROPS['C17'] = dict(layers=[speclayer.SpecLayer()], planned=['specOK_sound: the static predicate implies no send reaches an undefined conversion and every $N read is a defined group, over the interpreter model'])
-PROPS['C11'] = dict(layers=[D(P.p_c11, P.p_f23, profile=dict(maxclients=6))], planned=['C11_routing', 'C11_departure', 'C11_backpressure'])
+PROPS['C11'] = dict(layers=[D(P.p_c11, P.p_c11_events, P.p_c11_tele, P.p_f23, profile=dict(maxclients=6))], planned=['C11_routing', 'C11_departure', 'C11_backpressure'])
 
 
 def all_layers():
@@ -209,6 +209,12 @@ class PairedLayer:
             k = next((i for i, (x, y) in enumerate(zip(ta, tb)) if x != y), min(len(ta), len(tb)))
             V.append(dict(sig='C05 the healthy device is addressed differently when another device is sick', sick=sims[1]['sick_mode'],
                           healthy=repr(ta[k])[:160] if k < len(ta) else None, sick_run=repr(tb[k])[:160] if k < len(tb) else None, at=(ta[k][0] if k < len(ta) else 0)))
+        # one device's deadline is never hidden by another device's later one (the poll time-out is the minimum): both runs
+        for t in trs:
+            W = []; preds.p_c04_deadline(t, W, st)
+            for w in W:
+                if 'time-out registered for poll' in w['sig']:
+                    w['sig'] = w['sig'].replace('C04', 'C05'); V.append(w)
         for v in V: v['replay'] = dict(layer=self.name, seed=seed, N=N, at=v.get('at', 0))
         return dict(passes=sum(len(s['ops']) for s in sims), diffs=diffs, violations=V, stats=st,
                     sample=dict(seed=seed, sick_mode=sims[1]['sick_mode'], clients=[(c['kind'], [l.decode('latin1') for o, l in c['lines']][:3]) for c in sims[0]['clients']][:4]))
